@@ -4,6 +4,9 @@
 # Runs in the scratch copy /tmp/sw<slot> like lib/sweep.sh; results in work/pp_results_<start time>_<slot>.txt
 slot=$1; shift
 base=/tmp/sw$slot
+# one run per slot at a time (a second run would re-sync the copy under the first one)
+exec 9>"/tmp/sw$slot.lock"
+flock -n 9 || { echo "slot $slot is busy" >&2; exit 4; }
 if [ ! -d "$base/repo" ]; then
   mkdir -p "$base" && git -C /repo worktree add -q --detach "$base/repo" HEAD
 fi
